@@ -472,13 +472,15 @@ func extractLatch(pkgRel string, files []*ast.File) []latchFact {
 			}
 		}
 		// classify returns (not inside function literals)
-		var walk func(list []ast.Stmt)
+		// a `return false` directly inside any `if recv.err != nil { … }` is of class guard as well:
+		// the error it reports is already stored
+		var walk func(list []ast.Stmt, underErrCheck bool)
 		var visit func(s ast.Stmt)
-		walk = func(list []ast.Stmt) {
+		walk = func(list []ast.Stmt, underErrCheck bool) {
 			for i, s := range list {
 				if r, ok := s.(*ast.ReturnStmt); ok {
 					switch {
-					case isReturnFalse(r) && guardIf != nil && len(guardIf.Body.List) == 1 && guardIf.Body.List[0] == s:
+					case isReturnFalse(r) && (underErrCheck || (guardIf != nil && len(guardIf.Body.List) == 1 && guardIf.Body.List[0] == s)):
 						lf.Returns = append(lf.Returns, "guard")
 					case isReturnFalse(r) && i > 0 && assignsRecvErr(list[i-1], recv):
 						lf.Returns = append(lf.Returns, "stored")
@@ -495,29 +497,29 @@ func extractLatch(pkgRel string, files []*ast.File) []latchFact {
 		visit = func(s ast.Stmt) {
 			switch v := s.(type) {
 			case *ast.BlockStmt:
-				walk(v.List)
+				walk(v.List, false)
 			case *ast.IfStmt:
-				walk(v.Body.List)
+				walk(v.Body.List, v.Init == nil && isErrNotNil(v.Cond, recv))
 				if v.Else != nil {
 					visit(v.Else)
 				}
 			case *ast.ForStmt:
-				walk(v.Body.List)
+				walk(v.Body.List, false)
 			case *ast.RangeStmt:
-				walk(v.Body.List)
+				walk(v.Body.List, false)
 			case *ast.SwitchStmt:
 				for _, c := range v.Body.List {
-					walk(c.(*ast.CaseClause).Body)
+					walk(c.(*ast.CaseClause).Body, false)
 				}
 			case *ast.TypeSwitchStmt:
 				for _, c := range v.Body.List {
-					walk(c.(*ast.CaseClause).Body)
+					walk(c.(*ast.CaseClause).Body, false)
 				}
 			case *ast.LabeledStmt:
 				visit(v.Stmt)
 			}
 		}
-		walk(body)
+		walk(body, false)
 		out = append(out, lf)
 	}
 	sort.Slice(out, func(i, j int) bool { return out[i].Decoder < out[j].Decoder })
